@@ -147,7 +147,7 @@ theorem iLoad_spec {s : St} (he : StoreEq s) (hc : AllCanon s) (hi : AllIndexabl
 
 /-! ## stored rules are indexable: whether a pattern can be indexed does not depend on the index -/
 
-theorem PI.mod_err_indep (fuel : Nat) : ∀ (idx idx' : PI) (pairs : List (String × J)) (id : String) (add : Bool),
+theorem PI.mod_err_indep_r (fuel : Nat) : ∀ (idx idx' : PI) (pairs : List (String × J)) (id : String) (add : Bool),
     (PI.mod fuel idx pairs id add).2 = (PI.mod fuel idx' pairs id add).2 := by
   induction fuel with
   | zero => intro idx idx' pairs id add; simp [PI.mod]
@@ -177,9 +177,9 @@ theorem indexRule_err_indep (s s' : St) (id : String) (r : Obj) : (s.indexRule i
     | none => rfl
     | some pat =>
       simp only [piAdd]
-      rw [PI.mod_err_indep _ s.ri s'.ri]
+      rw [PI.mod_err_indep_r _ s.ri s'.ri]
 
-theorem mem_amSet {α} {m : List (String × α)} {k : String} {v : α} {p : String × α} (h : p ∈ amSet m k v) :
+theorem mem_amSet_r {α} {m : List (String × α)} {k : String} {v : α} {p : String × α} (h : p ∈ amSet m k v) :
     p = (k, v) ∨ p ∈ m := by
   unfold amSet at h
   split at h
@@ -286,12 +286,12 @@ theorem IdxInv.add {s : St} (h : IdxInv s) (given : String) (x : Obj) (now : Int
       refine ⟨hk.trans h.kind, hse, ?_, ?_, ?_⟩
       · intro p hp'
         rw [hf] at hp'
-        rcases mem_amSet hp' with rfl | hm
+        rcases mem_amSet_r hp' with rfl | hm
         · exact hcanon
         · exact h.canon p hm
       · intro p hp'
         rw [hf] at hp'
-        rcases mem_amSet hp' with rfl | hm
+        rcases mem_amSet_r hp' with rfl | hm
         · exact hidx
         · exact h.indexable p hm
       · rw [hf]; exact amKeys_amSet_nodup _ _ _ h.nodup
@@ -299,7 +299,7 @@ theorem IdxInv.add {s : St} (h : IdxInv s) (given : String) (x : Obj) (now : Int
 theorem IdxInv.empty : IdxInv (St.empty .indexed) :=
   ⟨rfl, rfl, fun _ hp => (by cases hp), fun _ hp => (by cases hp), List.nodup_nil⟩
 
-theorem IdxInv.stepOp {s : St} (h : IdxInv s) (op : StOp) : IdxInv (s.stepOp op).1 := by
+theorem IdxInv.stepOp {s : St} (h : IdxInv s) (op : ROp) : IdxInv (s.stepOp op).1 := by
   have hse := St.stepOp_storeEq h.storeEq op
   cases op with
   | add g x now => exact h.add g x now
@@ -309,7 +309,7 @@ theorem IdxInv.stepOp {s : St} (h : IdxInv s) (op : StOp) : IdxInv (s.stepOp op)
   | findRules ev now => exact h.of_shrinks (St.findRules_shrinks s ev now) hse
   | clear => exact ⟨h.kind, rfl, fun _ hp => (by cases hp), fun _ hp => (by cases hp), List.nodup_nil⟩
 
-theorem IdxInv.runOps (ops : List StOp) : ∀ {s : St}, IdxInv s → IdxInv (s.runOps ops) := by
+theorem IdxInv.runOps (ops : List ROp) : ∀ {s : St}, IdxInv s → IdxInv (s.runOps ops) := by
   induction ops with
   | nil => intro s h; exact h
   | cons op rest ih => intro s h; exact ih (h.stepOp op)
